@@ -185,6 +185,24 @@ func main() {
 			}
 		}
 	}
+	if len(wantProps) > 0 {
+		// obligations tagged for one property (`assert@Cnn`) are kept only in runs for that property
+		for _, f := range o.Functions {
+			var keep []*Obligation
+			for _, ob := range f.Obligations {
+				ok := len(ob.Props) == 0
+				for _, p := range ob.Props {
+					if wantProps[p] {
+						ok = true
+					}
+				}
+				if ok {
+					keep = append(keep, ob)
+				}
+			}
+			f.Obligations = keep
+		}
+	}
 	o.GenS = time.Since(t1).Seconds()
 	var obs []*Obligation
 	for _, f := range o.Functions {
